@@ -182,7 +182,7 @@ def run(ctx):
         'evaluations': tot['calls'],
         'distinct_nontrivial': tot['compared'],
         'programs': len(progs),
-        'rule': f'expression layer: every typed tree with <= {2 if ctx.quick else 3} operator applications over int ops {pyexprs()} rendered with minimal parentheses{"" if ctx.quick else " and fully parenthesised"}; statement skeletons (if/elif/else nests, while, for over range 1-3 args/list/enumerate/dict views, break/continue, all augmented operators, destructuring, declaration vs re-assignment, defaults, closures, lambdas, try/raise/except{", every compound inside every compound" if not ctx.quick else ""}); feature schemas (classes, inheritance, enums, list/dict/str methods, slices, comprehensions, casts, floats); argument grid a,b in {pyprog.INTS} x p,q in both booleans; non-trivial = a call that is inside the agreed subset (no negative modulo / division by zero / shift range / 32-bit overflow on the Python side) and was compared',
+        'rule': f'expression layer: every typed tree with <= {2 if ctx.quick else 3} operator applications over int ops {pyexprs()} rendered with minimal parentheses and fully parenthesised; statement skeletons (if/elif/else nests, while, for over range 1-3 args/list/enumerate/dict views, break/continue, all augmented operators, destructuring, declaration vs re-assignment, defaults, closures, lambdas, try/raise/except{", every compound inside every compound" if not ctx.quick else ""}); feature schemas (classes, inheritance, enums, list/dict/str methods, slices, comprehensions, casts, floats); argument grid a,b in {pyprog.INTS} x p,q in both booleans; non-trivial = a call that is inside the agreed subset (no negative modulo / division by zero / shift range / 32-bit overflow on the Python side) and was compared',
         'samples': samples,
         'entry_functions': tot['functions'],
         'calls_out_of_subset': tot['out_of_subset'],
